@@ -60,8 +60,10 @@ type osLockFile struct {
 }
 
 func (f *osLockFile) Unlock() error {
+	verifLockYield("unlink")
 	if err := os.Remove(f.path); err != nil {
 		return err
 	}
+	verifLockYield("close")
 	return f.Close()
 }
